@@ -187,6 +187,136 @@ var c01Files = map[string]string{
 // c01SharedBatches: one compiled template per resolver step / tag form, executed with every zoo value in turn
 func c01SharedBatches() int { return len(c01Steps) + len(c01TagFormList) }
 
+// ---- feature combinations: every inner construct inside every wrapper (and inside two wrappers) ------------------------
+
+var c01Inner = []string{
+	"{% block bb %}in-block{{ block.Super }}{% endblock %}",
+	"{% macro mi(a, b=2) %}<{{ a }}{{ b }}>{% endmacro %}{{ mi(1) }}{{ mi() }}",
+	"{% include \"/inc.tpl\" %}",
+	"{% include incname %}{% include incname if_exists %}{% include nosuch if_exists %}",
+	"{% include \"/inc.tpl\" with v=z_str only %}",
+	"{% import \"/lib.tpl\" mm %}{{ mm(1) }}{% import \"/lib.tpl\" mm as alias %}{{ alias(z_str, 2) }}",
+	"{% import \"/blocklib.tpl\" bm %}{{ bm() }}",
+	"{% for i in z_ints %}{% cycle \"a\" \"b\" as cy %}{% ifchanged i %}c{% else %}s{% endifchanged %}{% ifchanged %}{{ i }}{% endifchanged %}{{ forloop.Parentloop.Counter }}{% endfor %}",
+	"{% for k, v in z_anymap sorted %}{{ k }}{{ v }}{% endfor %}{% for k in z_anymap reversed sorted %}{{ k }}{% endfor %}{% for k in z_mixedkeys sorted %}{{ k }}{% endfor %}",
+	"{% set sv = z_str|upper %}{{ sv }}",
+	"{% ssi \"/inc.tpl\" parsed %}{% ssi \"/inc.tpl\" %}",
+	"{% filter upper|lower %}f{{ z_str }}{% endfilter %}",
+	"{% firstof nothing z_nil z_str|safe \"lit\" %}{% firstof nothing %}",
+	"{% widthratio z_int 10 100 as wr %}{{ wr|add:1 }}{% widthratio z_f64 z_int 3 %}",
+	"{% templatetag openblock %}{# c #}{% comment %}{% nosuch %}{% endcomment %}{% verbatim %}{{ raw }}{% endverbatim %}",
+	"{% now \"2006\" fake %}{% lorem 3 w %}",
+	"{% with a=1 b=z_str %}{{ a }}{{ b }}{% endwith %}{% with z_str as c %}{{ c }}{% endwith %}",
+	"{% spaceless %}<a> <b> {{ z_str }}</b>{% endspaceless %}{% autoescape off %}{{ z_str }}{% endautoescape %}",
+	"{% ifequal z_int 42 %}e{% else %}n{% endifequal %}{% ifnotequal z_str z_int %}n{% endifnotequal %}{% if z_int in z_ints and not z_nil %}i{% elif z_true %}e{% endif %}",
+	"{{ forloop.Counter }}{{ forloop.Parentloop.Last }}{{ block.Super }}{{ pongo2.version }}",
+}
+
+type c01Wrapper struct {
+	name string
+	wrap func(inner string, files map[string]string) string
+}
+
+var c01Wrappers = []c01Wrapper{
+	{"plain", func(in string, f map[string]string) string { return in }},
+	{"if", func(in string, f map[string]string) string { return "{% if z_true %}" + in + "{% else %}" + in + "{% endif %}" }},
+	{"for", func(in string, f map[string]string) string { return "{% for x in z_ints %}" + in + "{% empty %}" + in + "{% endfor %}" }},
+	{"with", func(in string, f map[string]string) string { return "{% with w=1 %}" + in + "{% endwith %}" }},
+	{"macro", func(in string, f map[string]string) string {
+		return "{% macro wm(p) %}" + in + "{% endmacro %}{{ wm(1) }}{{ wm() }}"
+	}},
+	{"imported-macro", func(in string, f map[string]string) string {
+		f["/wlib.tpl"] = "{% macro wm(p) export %}" + in + "{% endmacro %}"
+		return "{% import \"/wlib.tpl\" wm %}{{ wm(1) }}"
+	}},
+	{"block", func(in string, f map[string]string) string { return "{% block wb %}" + in + "{% endblock %}" }},
+	{"child-block", func(in string, f map[string]string) string {
+		f["/wbase.tpl"] = "base[{% block wb %}b{% endblock %}{% block other %}o{% endblock %}]"
+		return "{% extends \"/wbase.tpl\" %}{% block wb %}" + in + "{{ block.Super }}{% endblock %}"
+	}},
+	{"parent-block", func(in string, f map[string]string) string {
+		f["/wbase2.tpl"] = "base[{% block wb %}" + in + "{% endblock %}]"
+		return "{% extends \"/wbase2.tpl\" %}{% block wb %}c{{ block.Super }}{{ block.Super }}{% endblock %}"
+	}},
+	{"filter", func(in string, f map[string]string) string { return "{% filter upper %}" + in + "{% endfilter %}" }},
+	{"spaceless", func(in string, f map[string]string) string { return "{% spaceless %}" + in + "{% endspaceless %}" }},
+	{"autoescape", func(in string, f map[string]string) string {
+		return "{% autoescape off %}" + in + "{% autoescape on %}" + in + "{% endautoescape %}{% endautoescape %}"
+	}},
+	{"ifchanged", func(in string, f map[string]string) string {
+		return "{% for y in z_ints %}{% ifchanged %}" + in + "{% endifchanged %}{% endfor %}"
+	}},
+	{"included", func(in string, f map[string]string) string {
+		f["/winc.tpl"] = in
+		return "{% include \"/winc.tpl\" %}{% include wincname %}"
+	}},
+	{"ssi-parsed", func(in string, f map[string]string) string {
+		f["/wssi.tpl"] = in
+		return "{% ssi \"/wssi.tpl\" parsed %}"
+	}},
+}
+
+func c01ComboCount(tier string) int {
+	n := len(c01Wrappers) * len(c01Inner)
+	if tier == "thorough" {
+		return n + 20000
+	}
+	return n + 1500
+}
+
+// c01Combo: inner construct i inside wrapper w (exhaustive pairs), then random wrapper stacks of depth 2-3
+func c01Combo(c *C, i int) {
+	files := map[string]string{}
+	for k, v := range c01Files {
+		files[k] = v
+	}
+	files["/blocklib.tpl"] = "{% macro bm() export %}[{% block inmacro %}x{% endblock %}]{% endmacro %}"
+	var main, desc string
+	if i < len(c01Wrappers)*len(c01Inner) {
+		w, in := c01Wrappers[i/len(c01Inner)], c01Inner[i%len(c01Inner)]
+		main, desc = w.wrap(in, files), w.name
+	} else {
+		in := c01Inner[c.R.Intn(len(c01Inner))] + c01Inner[c.R.Intn(len(c01Inner))]
+		main = in
+		used := map[string]bool{}
+		for d := 2 + c.R.Intn(2); d > 0; d-- {
+			w := c01Wrappers[c.R.Intn(len(c01Wrappers))]
+			if used[w.name] || (used["child-block"] && w.name == "parent-block") || (used["parent-block"] && w.name == "child-block") {
+				continue
+			}
+			used[w.name] = true
+			main = w.wrap(main, files)
+			desc += w.name + ">"
+		}
+	}
+	files["/main.tpl"] = main
+	ctx := zooContext("")
+	ctx["incname"], ctx["wincname"], ctx["nosuch"] = "/inc.tpl", "/winc.tpl", "/nosuch.tpl"
+	ctx["z_mixedkeys"] = map[any]int{1: 1, "a": 2, uint8(3): 3, 2.5: 4, true: 5, nil: 6}
+	set, _ := newSet(files)
+	for which := 0; which < 4; which++ {
+		c01One(c, set, main, "/main.tpl", []pongo2.Context{ctx, nil}, which)
+		if c.Failed() {
+			return
+		}
+	}
+	// the less common entry points
+	if tpl, err := set.FromCache("/main.tpl"); err == nil {
+		tpl.ExecuteBlocks(ctx, []string{"wb", "bb", "other", "inmacro", "nosuchblock"})
+		tpl.ExecuteBlocks(nil, nil)
+		c.Eval(2)
+	}
+	func() {
+		defer func() { recover() }() // RenderTemplate* panic (documented) when the template cannot be created
+		set.RenderTemplateFile("/main.tpl", ctx)
+		set.RenderTemplateString(main, ctx)
+		set.RenderTemplateBytes([]byte(main), ctx)
+	}()
+	c.Eval(3)
+	c.Nontrivial("combo:" + desc + main)
+	c.Cover("feature_combination")
+}
+
 func c01Plan(tier string) (filterBatches, stepBatches, stepStride, tagBatches, grammar, rawBytes, resource int) {
 	if c01Filters == nil {
 		c01Init()
@@ -223,8 +353,10 @@ func c01Run(c *C) {
 		c01RawBytes(c)
 	case idx < fb+sb+tb+gr+rb+len(c01Resource):
 		c01ResourceCase(c, idx-(fb+sb+tb+gr+rb))
-	default:
+	case idx < fb+sb+tb+gr+rb+len(c01Resource)+c01SharedBatches():
 		c01SharedSweep(c, idx-(fb+sb+tb+gr+rb+len(c01Resource)))
+	default:
+		c01Combo(c, idx-(fb+sb+tb+gr+rb+len(c01Resource)+c01SharedBatches()))
 	}
 }
 
@@ -632,12 +764,12 @@ func init() {
 		Init: c01Init,
 		Cases: func(tier string) int {
 			a, b, _, t, g, r, rs := c01Plan(tier)
-			return a + b + t + g + r + rs + c01SharedBatches()
+			return a + b + t + g + r + rs + c01SharedBatches() + c01ComboCount(tier)
 		},
 		Run:         c01Run,
 		CaseTimeout: 30,
 		Rule: "four workloads in crash-isolated worker processes (panic => violation via recover, process death and hangs via the driver's progress log and watchdogs): " +
-			"(1) complete sweeps: every registered filter (from the verif hook) x every zoo value (about 100 Go values: nil, strings incl. invalid UTF-8, every int/uint/float kind with extremes/NaN/Inf, slices, arrays, maps with string/int/float/bool/named keys, structs with unexported and embedded fields, pointers incl. typed nil, Stringers, time, errors, *Value, functions of accepted and rejected shapes) x 35 parameters through ApplyFilter and {{ v|f:p }}; every zoo value x every resolver step x (quick: a seed-dependent 1/20, thorough: every) second step; 88 tag/operator forms x every zoo value in the argument slot; the same steps and forms once more as ONE compiled template executed with every zoo value in turn (shuffled, then reversed); " +
+			"(1) complete sweeps: every registered filter (from the verif hook) x every zoo value (about 100 Go values: nil, strings incl. invalid UTF-8, every int/uint/float kind with extremes/NaN/Inf, slices, arrays, maps with string/int/float/bool/named keys, structs with unexported and embedded fields, pointers incl. typed nil, Stringers, time, errors, *Value, functions of accepted and rejected shapes) x 35 parameters through ApplyFilter and {{ v|f:p }}; every zoo value x every resolver step x (quick: a seed-dependent 1/20, thorough: every) second step; 88 tag/operator forms x every zoo value in the argument slot; the same steps and forms once more as ONE compiled template executed with every zoo value in turn (shuffled, then reversed); 20 inner constructs inside each of 15 wrappers (if, for, with, local and imported macro body, block, child and parent block, filter, spaceless, autoescape, ifchanged, included file, ssi parsed) plus random wrapper stacks, through the four Execute entry points, ExecuteBlocks, FromCache and RenderTemplate*; " +
 			"(2) grammar-generated programs over all tags/filters/operators with loader files, 3 contexts, TrimBlocks/LStripBlocks settings, the four Execute entry points; (3) byte-level mutations of the repository's fixtures and of generated programs; (4) 40 resource shapes (deep nesting, long chains, every macro recursion route, cyclic include/extends/import/ssi graphs). " +
 			"Oracle: exactly one of template/error, exactly one of output/error, no panic, no process death, every case finishes within the watchdog. distinct_nontrivial = distinct sweep cells, compiled programs and byte inputs.",
 		MinNontriv:  5000,
